@@ -209,7 +209,7 @@ pub fn install_panic_hook() {
 
 /// Runs closure catching panics; returns Err(message @ file:line).
 pub fn catch<R>(f: impl FnOnce() -> R) -> Result<R, String> {
-    let prev = QUIET.with(|q| q.replace(true));
+    let prev = QUIET.with(|q| q.replace(std::env::var("VERIF_LOUD").is_err()));
     LAST_PANIC.with(|p| *p.borrow_mut() = None);
     let result = catch_unwind(AssertUnwindSafe(f));
     QUIET.with(|q| *q.borrow_mut() = prev);
